@@ -375,6 +375,11 @@ def run_delegate(lib, case, attempt=0):
     if state['blocked']:
         if attempt == 0:
             return run_delegate(lib, case, attempt=1)
+        # the listener waited 30 s for the other thread's evaluation, twice: a host that waits without a time limit never
+        # gets its answer (whatever the worker does once the listener has given up)
+        text = inner['raw'] if 'raw' in inner else F.render(inner)
+        with w.lock:
+            w.ev = [e for e in w.ev if not (e['e'] == 'parse' and e['p'] == tp and e['formula'] == text)]
         return blocked_events(w, [(tp, inner)], [solo_in])
     return w.ev
 
